@@ -27,6 +27,7 @@ type EvalCtx struct {
 	calleeFn   *ssa.Function   // ensures of a callee assumed at a call site: its local variables are existential witnesses
 	witnesses  map[string]TV   // per call: one fresh constant per callee local mentioned in its ensures
 	fvCells    map[string]*Ptr // contract of a closure applied at a call site: its captured variables, by name
+	loopEntrySt *State         // loop invariants: the state in which the loop was entered (loopentry(e))
 }
 
 type evalError struct{ msg string }
@@ -818,6 +819,17 @@ func (c *EvalCtx) call(v *ECall) TV {
 		// lock held? evaluated statically against the lockset
 		key := c.lockKey(v.Args[0])
 		return tvTerm(BoolLit(c.state().held[key]))
+	case "loopentry":
+		// loopentry(e): the value of e when the loop whose invariant this is was entered (relational loop invariants such
+		// as "the list only grows")
+		need(1)
+		if c.loopEntrySt == nil {
+			c.fail("loopentry() outside a loop invariant")
+		}
+		n := *c
+		n.st = c.loopEntrySt
+		n.inOld = false
+		return n.eval(v.Args[0])
 	case "chanclosed":
 		// chanclosed(ch): the channel has been closed (ghost state behind the close-once obligation)
 		need(1)
